@@ -130,7 +130,12 @@ const Type* TypedefNameTypeResolver::resolve(const Type* ty)
             auto tydefDecl = tydefNameTy->declaration();
             if (!tydefDecl)
                 return semaModel_->compilation()->canonicalErrorType();
-            return resolve(tydefDecl->synonymizedType());
+            // A typedef name (erroneously) defined in terms of itself has no type.
+            if (!openTydefNameTys_.insert(tydefNameTy).second)
+                return semaModel_->compilation()->canonicalErrorType();
+            auto resolvedTy = resolve(tydefDecl->synonymizedType());
+            openTydefNameTys_.erase(tydefNameTy);
+            return resolvedTy;
         }
 
         case TypeKind::Qualified: {
